@@ -10,9 +10,9 @@ package main
 
 //@ func generate(out)
 //@   requires out != nil
-//@   call fmt.Fprintf#2 requires arg1 == "# created: %s\n"                                                          [C15]
-//@   call fmt.Fprintf#3 requires arg1 == "# public key: %s\n"                                                       [C15]
-//@   call fmt.Fprintf#4 requires arg1 == "%s\n"                                                                     [C15]
+//@   call fmt.Fprintf#2 requires arg1 == "# created: %s\n" && id(arg0) == id(out)                                                        [C15]
+//@   call fmt.Fprintf#3 requires arg1 == "# public key: %s\n" && id(arg0) == id(out)                                                     [C15]
+//@   call fmt.Fprintf#4 requires arg1 == "%s\n" && id(arg0) == id(out)                                                                   [C15]
 //@   ensures#delivered calls("fmt.Fprintf",2) == old(calls("fmt.Fprintf",2)) + 1 && lasterr("fmt.Fprintf",2) == nil && calls("fmt.Fprintf",3) == old(calls("fmt.Fprintf",3)) + 1 && lasterr("fmt.Fprintf",3) == nil && calls("fmt.Fprintf",4) == old(calls("fmt.Fprintf",4)) + 1 && lasterr("fmt.Fprintf",4) == nil   [C15]
 
 //@ func convert(in, out)
